@@ -414,6 +414,63 @@ func c09(r *mon.Run) {
 			cx.runBoth(tree, gen.SpellTight(tree), doc)
 			t.Nontrivial("ak:" + strconv.Itoa(i))
 		}}
+	// to_number on and around the edges of the machine number formats, alone and where its value decides something else
+	edgeForms := 17
+	edgew := mon.Workload{Name: "to_number-at-the-edges-of-the-number-formats", N: len(edgeNumberStrings) * edgeForms, Batch: 200,
+		Describe: func(i int) string { return edgeNumberStrings[i/edgeForms] },
+		Do: func(i int, t *mon.Tally) {
+			sv := edgeNumberStrings[i/edgeForms]
+			doc := map[string]interface{}{"a": sv, "x": []interface{}{map[string]interface{}{"id": "1", "i": float64(0)}, map[string]interface{}{"id": sv, "i": float64(1)}, map[string]interface{}{"id": "-1", "i": float64(2)}}}
+			a, id := gen.Field("a"), gen.Func("to_number", gen.Field("id"))
+			nz := func() *gen.Expr { return gen.Func("not_null", gen.Func("to_number", gen.Field("a")), gen.LitJSON("0")) }
+			neg := func() *gen.Expr { return gen.Func("not_null", gen.Func("to_number", gen.Field("m")), gen.LitJSON("0")) }
+			doc["m"] = "-" + strings.TrimPrefix(sv, "-")
+			if strings.HasPrefix(sv, "-") {
+				doc["m"] = strings.TrimPrefix(sv, "-")
+			}
+			var tree *gen.Expr
+			switch i % edgeForms {
+			case 0:
+				tree = gen.Func("to_number", gen.Raw(sv))
+			case 1:
+				tree = gen.Func("to_number", a)
+			case 2:
+				tree = gen.MultiList(gen.Func("to_number", a), gen.Func("type", gen.Func("to_number", a)))
+			case 3:
+				tree = gen.Chain(gen.Func("sort_by", gen.Field("x"), gen.ExpRef(gen.Func("not_null", id, gen.LitJSON("0")))), gen.StListStar(), gen.StField("i"))
+			case 4:
+				tree = gen.Chain(gen.Func("max_by", gen.Field("x"), gen.ExpRef(gen.Func("not_null", id, gen.LitJSON("0")))), gen.StField("i"))
+			case 5:
+				tree = gen.Cmp("==", gen.Func("to_number", a), gen.Func("to_number", gen.Raw(sv)))
+			case 6:
+				tree = gen.Cmp(">", gen.Func("to_number", a), gen.LitJSON("0"))
+			case 7:
+				tree = gen.Func("abs", gen.Func("not_null", gen.Func("to_number", a), gen.LitJSON("0")))
+			case 8:
+				tree = gen.Func("to_number", gen.Func("to_string", gen.Func("to_number", a)))
+			case 9:
+				tree = gen.Func("map", gen.ExpRef(id), gen.Field("x"))
+			case 10:
+				tree = gen.Func("to_string", gen.Func("to_number", a))
+			case 11:
+				tree = gen.Chain(gen.Field("x"), gen.StFilter(gen.Cmp(">=", id, gen.Func("to_number", gen.Raw(sv)))), gen.StField("i"))
+			case 12:
+				tree = gen.Func("sum", gen.MultiList(nz(), nz()))
+			case 13:
+				tree = gen.Func("avg", gen.MultiList(nz(), nz()))
+			case 14:
+				tree = gen.Func("sum", gen.MultiList(nz(), nz(), gen.LitJSON("1"), neg(), neg()))
+			case 15:
+				tree = gen.Func("avg", gen.MultiList(nz(), nz(), nz(), gen.LitJSON("-1")))
+			default:
+				tree = gen.MultiList(gen.Func("sum", gen.MultiList(nz(), nz(), neg())), gen.Func("avg", gen.MultiList(neg(), neg())), gen.Func("sum", gen.MultiList(neg(), neg())))
+			}
+			cx := &caseCtx{r, t, "to_number-at-the-edges-of-the-number-formats", i}
+			res, _, _ := cx.runBoth(tree, gen.SpellTight(tree), doc)
+			if nonNull(res) {
+				t.Nontrivial("edge:" + strconv.Itoa(i))
+			}
+		}}
 	// nested in random contexts
 	nr := tierPick(r, 40000, 1000000)
 	ctx := mon.Workload{Name: "calls-in-context", N: nr,
@@ -578,7 +635,7 @@ func c09(r *mon.Run) {
 				t.Count("by-functions over lists with nulls: value expected")
 			}
 		}}
-	r.Exec(exh, typed, every, strw, trw, akw, kindPairsWorkload(r, "C09"), ctx, large, sizedWorkload(r, "sized-arrays", false), reuse, nullw)
+	r.Exec(exh, typed, every, strw, trw, akw, kindPairsWorkload(r, "C09"), ctx, large, sizedWorkload(r, "sized-arrays", false), reuse, nullw, edgew)
 }
 
 // c09ReuseTrees: calls nested in the arguments of other calls (and in expression references, projections,
